@@ -105,6 +105,25 @@ def main():
 def finish(meta, pid, tag, patch, demo, notes, wt):
     d = os.path.join(ROOT, "seeded", "%s-%s" % (pid, tag))
     os.makedirs(d, exist_ok=True)
+    # keep the record's history across re-confirmations
+    try:
+        prev = json.load(open(os.path.join(d, "meta.json")))
+    except Exception:
+        prev = {}
+    runs = prev.get("runs", [])
+    if not runs and prev.get("confirmed") is not None and "checks" in prev:
+        runs.append({"repo_head": prev.get("repo_head"), "caught_by": prev.get("caught_by")})
+    runs.append({"repo_head": meta.get("repo_head"), "caught_by": meta.get("caught_by"), "when": time.strftime("%Y-%m-%d %H:%M")})
+    meta["runs"] = runs
+    first = next((r for r in runs if r.get("caught_by") is not None), None)
+    if prev.get("history") and prev["history"].startswith("missed"):
+        meta["history"] = prev["history"]
+    elif first is not None and not first["caught_by"] and meta.get("caught_by"):
+        meta["history"] = "missed at first; caught after the check was strengthened (see tools/manifest/%s.json)" % pid
+    elif first is not None and first["caught_by"]:
+        meta["history"] = "caught at first run"
+    elif meta.get("caught_by") == []:
+        meta["history"] = "not caught yet"
     shutil.copy(patch, os.path.join(d, "patch.diff"))
     shutil.copy(demo, os.path.join(d, "demo.rs"))
     if os.path.exists(notes):
